@@ -362,6 +362,19 @@ class World:
                 raise oserror("ENOTDIR", path)
             self.dirs.add(cur)
 
+    def stat(self, path):
+        import stat as _stat
+        p = self.abspath(path)
+        self.journal_add("stat", p)
+        if p in self.files:
+            mode = _stat.S_IFREG | (0o000 if p in self.unreadable else 0o600)
+            return _real_os.stat_result((mode, 0, 0, 1, 0, 0, len(self.files[p]), 0, 0, 0))
+        if p in self.dirs:
+            mode = _stat.S_IFDIR | (0o500 if p in self.unwritable else 0o700)
+            return _real_os.stat_result((mode, 0, 0, 1, 0, 0, 4096, 0, 0, 0))
+        parent = posixpath.dirname(p)
+        raise oserror("ENOTDIR" if parent in self.files else "ENOENT", path)
+
     def getsize(self, path):
         p = self.abspath(path)
         if p in self.files:
